@@ -61,6 +61,7 @@ func runC05(c *Ctx) error {
 	c05DeclaredDirectories(c, tree)
 	c05PayloadOfThePlan(c, tree)
 	c05SameBaseNames(c, tree)
+	c05SourcesChangeBetweenPlans(c, tree)
 	c05ConfigRoute(c, tree)
 	return c05Random(c, tree)
 }
@@ -237,6 +238,38 @@ func c05SameBaseNames(c *Ctx, t *SrcTree) {
 			}
 		}
 	}
+}
+
+// c05SourcesChangeBetweenPlans: the plan is a function of the content list and of the source files as they are when
+// it is made.  The same list (same source spelling, same destination) is planned again in this process after files
+// were added to and removed from the source directory, and once more after the first state was restored; every plan
+// must be the model's plan of what is on disk at that moment (a result kept from an earlier call is not).
+func c05SourcesChangeBetweenPlans(c *Ctx, t *SrcTree) {
+	fam := c.Rep.Family("sources-change-between-plans", "exhaustive: {directory source, glob over it, glob with a destination ending in '/', tree} x five packagers, planned three times in one process: with mut/a.txt; after a.txt was removed and b.txt, sub/c.txt, sub/a.txt were added (the flattening destination /opt/flat/ then receives b.txt, c.txt and sub/a.txt); after the first state was restored; model plan of the files on disk at each moment vs files.PrepareForPackager; non-trivial = every case")
+	fam.Exhaustive = true
+	root := filepath.Join(t.Root, "mut")
+	write := func(rel string) {
+		p := filepath.Join(root, rel)
+		_ = os.MkdirAll(filepath.Dir(p), 0o755)
+		_ = os.WriteFile(p, []byte(rel), 0o644)
+	}
+	states := []func(){
+		func() { _ = os.RemoveAll(root); write("a.txt") },
+		func() { _ = os.RemoveAll(root); write("b.txt"); write("sub/c.txt"); write("sub/a.txt") },
+		func() { _ = os.RemoveAll(root); write("a.txt") },
+	}
+	type form struct{ src, dst, typ string }
+	forms := []form{{"mut", "/opt/demo", ""}, {"mut/*", "/opt/demo", ""}, {"mut/**/*.txt", "/opt/flat/", ""}, {"mut", "/opt/tree", "tree"}, {"mut/*.txt", "/etc/demo", "config"}}
+	for _, st := range states {
+		st()
+		for _, pk := range Formats {
+			for _, f := range forms {
+				planCase(c, fam, "sources-change-between-plans", wire.PlanCfg{Packager: pk, Umask: 0o022, MTime: 1700000000},
+					[]wire.Content{{Src: filepath.Join(t.Root, f.src), Dst: f.dst, Type: f.typ}}, false)
+			}
+		}
+	}
+	_ = os.RemoveAll(root)
 }
 
 // c05ConfigRoute: planning the way the CLI and library users get there – one parsed configuration, Config.Get(format)
